@@ -7,7 +7,7 @@ cd $R || exit 2
 git checkout -q -- . ; git clean -fdq
 for ID in "$@"; do
   cp /verif/evidence/$ID.json /var/tmp/evidence-$ID.bak 2>/dev/null
-  for d in /verif/seeded/$ID/*/patch.diff; do
+  for d in /verif/seeded/$ID/${PATTERN:-*}/patch.diff; do
     n=$(basename $(dirname $d))
     if ! git apply --check $d 2>/dev/null; then echo "$ID $n: DOES-NOT-APPLY"; continue; fi
     git apply $d
